@@ -5,7 +5,7 @@ rows = []
 for f in sorted(glob.glob(os.path.join(os.path.dirname(os.path.dirname(os.path.abspath(__file__))), "seeded", "*", "meta.json"))):
     m = json.load(open(f))
     sid = f.split("/")[-2]
-    checks = ", ".join(f"{k}: {v['verdict'].lower()}" for k, v in m["checks"].items())
+    checks = ", ".join(f"{k}: {v['verdict'].lower()}" for k, v in m["checks"].items()) + (f" (recorded before {m['obsolete_since']}, see text)" if m.get("obsolete_since") else "")
     rows.append(f"| {sid} | {m['breaks_property']} | {m['needs_to_manifest'][:230]} | {checks} |")
 print("| seeded change | breaks | needs, in order to manifest | quick-tier verdicts |\n|---|---|---|---|")
 print("\n".join(rows))
